@@ -7,7 +7,7 @@ import ast
 from mpsa.cfg import CFG, Node, calls_in, const_truth, header_expr, walk_shallow
 from mpsa.flow import fmt_path, held_locks, path_avoiding, reachable
 from mpsa.loader import dotted, norm_text
-from mpsa.match import Scope, has_timeout, is_name, is_none, kwarg, method_of, walk_shallow_func
+from mpsa.match import Scope, has_timeout, is_name, is_none, kwarg, method_of, walk_deep_func, walk_shallow_func
 from mpsa.report import Checker
 
 from .common import TEE, build_cfg, make_fallible
@@ -242,6 +242,8 @@ def run(ck: Checker):
     ck.ob('C10-7', f, nx[0], not bad, f'all {len(nx)} pulls end on StopIteration only' if not bad else f'L{bad[0].lineno}: `{norm_text(bad[0])}` uses an in-band default: a source element equal to it is taken for exhaustion — the fork that pulled it ends early while its peers skip that element and go on (different streams, and the survivor blocks on the full window)')
     ck.rule('C10-8', 'the pop threshold is the number of forks: tee() binds the constructor parameter that becomes `self.n_forks` to the expression that bounds the fork-creation loop (AGREE)', minimum=1)
     check_fork_count(ck, 'C10-8')
+    ck.rule('C10-9', 'links are write-once: the `next` of an element box is assigned exactly once, by the prefetch step, to a freshly made box — never cleared or re-pointed (the forks read it without a lock) (WHO)', minimum=1)
+    check_links_write_once(ck, 'C10-9')
 
 
 def _default_of(a: ast.arguments, name: str) -> str:
@@ -253,6 +255,38 @@ def _default_of(a: ast.arguments, name: str) -> str:
         if x.arg == name and d is not None:
             return norm_text(d)
     return 'a default number of'
+
+
+def check_links_write_once(ck: Checker, rid: str):
+    """The forks walk a singly linked list of element boxes without a lock: after a fork has counted an element it reads
+    `box.next` to advance.  A link is therefore written once -- by the prefetch step, to a freshly made box -- and never
+    cleared or re-pointed: a peer that has counted the element but not yet read its `next` would see None (and take it
+    for the end of the source: it ends early, its partner fills the window and blocks) or skip an element."""
+    f = ck.repo.func(TEE, 'Fork.__next__')
+    stores = []
+    for n in walk_deep_func(f.node):
+        tgts = n.targets if isinstance(n, ast.Assign) else ([n.target] if isinstance(n, (ast.AugAssign, ast.AnnAssign)) else [])
+        for t in tgts:
+            if isinstance(t, ast.Attribute) and t.attr == 'next' and not is_name(t.value, 'self'):
+                stores.append((n, t))
+        if isinstance(n, ast.Delete):
+            for t in n.targets:
+                if isinstance(t, ast.Attribute) and t.attr == 'next' and not is_name(t.value, 'self'):
+                    stores.append((n, t))
+        if isinstance(n, ast.Call) and dotted(n.func) in ('setattr', 'delattr') and len(n.args) >= 2 and isinstance(n.args[1], ast.Constant) and n.args[1].value == 'next' and not is_name(n.args[0], 'self'):
+            stores.append((n, n.args[0]))
+    fresh = {n.targets[0].id for n in walk_deep_func(f.node) if isinstance(n, ast.Assign) and len(n.targets) == 1 and isinstance(n.targets[0], ast.Name) and isinstance(n.value, ast.Call) and (dotted(n.value.func) or '').split('.')[-1] == 'TeeX'}
+    probs = []
+    links = 0
+    for n, t in stores:
+        v = n.value if isinstance(n, ast.Assign) else None
+        if isinstance(v, ast.Name) and v.id in fresh:
+            links += 1
+            continue
+        probs.append(f'L{n.lineno}: `{norm_text(n)[:50]}` clears or re-points the link of an element box: a peer that has counted this element and is about to read its `next` (no lock there) sees the end of the source mid-stream — it ends early and its partner fills the window and blocks — or skips an element')
+    if links != 1:
+        probs.append(f'{links} link steps found (expected exactly one: `<tail>.next = <fresh box>` in the prefetch)')
+    ck.ob(rid, f, stores[0][0] if stores else f.node, not probs, '; '.join(probs) if probs else 'the link of an element box is written once, by the prefetch step, to a freshly made box')
 
 
 def check_fork_count(ck: Checker, rid: str):
